@@ -93,19 +93,23 @@ func (c *checker) cfg(dev string, extra string, invs ...string) string {
 	return b.String()
 }
 
-var mcInvariants = []string{"TypeOK", "InvFaithful", "InvIdempotent", "InvNil", "InvLowerCamel", "InvValueLaws", "InvReadings"}
+var mcInvariants = []string{"TypeOK", "InvFaithful", "InvIdempotent", "InvNil", "InvLowerCamel", "InvValueLaws", "InvMarshaler", "InvReadings"}
 var pairInvariants = []string{"InvPairs", "InvTruth", "InvTextFn"}
 
-const nParts = 5     // SoyData!Parts
+const nParts = 6     // SoyData!Parts (part 5 = the marshaler family)
 const nPairParts = 4 // processes sharing the rows of the pair matrix
 
 // deviation -> (module, invariant that must catch it)
-var deviations = []struct{ name, module, inv string }{
-	{"nan_truthy", "SoyDataPairs", "InvTruth"},
-	{"eq_asymmetric_int_float", "SoyDataPairs", "InvPairs"},
-	{"struct_field_uppercase", "SoyDataMC", "InvLowerCamel"},
-	{"typed_nil_not_null", "SoyDataMC", "InvNil"},
-	{"text_map_order", "SoyDataPairs", "InvTextFn"},
+var deviations = []struct {
+	name, module, inv string
+	part              int
+}{
+	{"nan_truthy", "SoyDataPairs", "InvTruth", 0},
+	{"eq_asymmetric_int_float", "SoyDataPairs", "InvPairs", 0},
+	{"struct_field_uppercase", "SoyDataMC", "InvLowerCamel", 4},
+	{"typed_nil_not_null", "SoyDataMC", "InvNil", 4},
+	{"text_map_order", "SoyDataPairs", "InvTextFn", 0},
+	{"marshaler_checked_after_deref", "SoyDataMC", "InvMarshaler", 5},
 }
 
 func (c *checker) run() {
@@ -138,7 +142,7 @@ func (c *checker) run() {
 	// M1: deviations (self-test of the invariants)
 	devJobs := map[string]*job{}
 	for _, d := range deviations {
-		extra := "CONSTANT Size = 1\nCONSTANT Part = 4\n"
+		extra := fmt.Sprintf("CONSTANT Size = 1\nCONSTANT Part = %d\n", d.part)
 		if d.module == "SoyDataPairs" {
 			extra = "CONSTANT Size = 1\nCONSTANT Part = 0\nCONSTANT NParts = 1\n"
 		}
@@ -399,6 +403,9 @@ func (c *checker) checkConversion(mode string, g D, arg interface{}, hasArray bo
 	expSV := e.V
 	if which > 0 {
 		expSV = e.Alts[which-1]
+	}
+	if got == nil {
+		return true, which // a marshaler returned nil: not a Soy value, no laws to check
 	}
 	// idempotence on the real code: converting the result changes nothing
 	for _, o2 := range []data.StructOptions{o, {LowerCamel: !e.LC, TimeFormat: time.Kitchen}, data.DefaultStructOptions} {
